@@ -8,6 +8,12 @@
                   SignedPacketStore::upsert (store/signed_packets.rs, Message::Upsert:
                   `existing.more_recent_than(&packet)` -> noop, otherwise replace) followed,
                   on an update, by ZoneCache::remove.
+     PutReplaySig(k, pl, recs)   an adversary without k's secret: fetches the packet stored for k
+                  (GET /pkarr/<k>), keeps its signature and timestamp and PUTs them over another DNS
+                  payload (byte-wise smaller, pl = 0, or greater, pl = 2, than the stored one).  The
+                  signature covers (timestamp, payload), so it cannot verify: rejected, nothing changes.
+                  (Were it accepted, the equal timestamp would let the greater payload replace the
+                  stored packet: K's zone would serve records K never signed.)
      Query(k)     dns/node_zone_handler.rs `lookup` -> parse_name_as_pkarr_with_origin ->
                   ZoneStore::resolve: cache hit, or store.get + ZoneCache::insert.
                   The records of a zone are what util.rs
@@ -72,6 +78,10 @@ Init == /\ store = [k \in Keys |-> NoPacket] /\ cache = [k \in Keys |-> NoPacket
 \* PUT /pkarr/<k> with a body whose signature does not verify for k: 400, nothing changes
 PutRejected(k, p) == /\ Len(hist) < MaxSteps /\ ~Valid(k, p)
                      /\ UNCHANGED <<store, cache, accepted>> /\ Log(k, p, "rejected")
+\* replayed signature + timestamp of the stored packet over a different payload (signer "replay": nobody's key)
+ReplayOf(k, pl, recs) == [signer |-> "replay", sigOk |-> FALSE, ts |-> store[k].ts, pl |-> pl, recs |-> recs]
+PutReplaySig(k, pl, recs) == /\ store[k] # NoPacket /\ pl # store[k].pl
+                             /\ PutRejected(k, ReplayOf(k, pl, recs))
 \* verified, but the stored packet is more recent: noop (Upsert answers false)
 PutNoop(k, p) == /\ Len(hist) < MaxSteps /\ Valid(k, p) /\ Fresh(k, p)
                  /\ store[k] # NoPacket /\ MoreRecent(store[k], p)
